@@ -44,45 +44,33 @@ func ParseSchema(source string) (*Schema, error) {
 		}
 
 		if cur.IsNext("//") {
-			cur.SkipSpaces()
-			ctype, err := cur.ReadAt(' ')
+			// comment is always single line. annotations (@type, @enum, @constructor, @method, @param) are
+			// keeping for generated docs, any other comment is just a comment, like in schemas from telegram
+			line, err := cur.ReadAt('\n')
 			if err != nil {
-				return nil, fmt.Errorf("read comment type: %w", err)
+				break // schema ends with comment without line break
 			}
+			cur.Skip(1)
 
-			cur.SkipSpaces()
+			line = strings.TrimSpace(line)
+			ctype, comment := line, ""
+			if i := strings.IndexAny(line, " \t"); i >= 0 {
+				ctype, comment = line[:i], strings.TrimSpace(line[i:])
+			}
 
 			switch ctype {
 			case "@type":
-				comment, err := cur.ReadAt('\n')
-				if err != nil {
-					return nil, fmt.Errorf("read comment: %w", err)
-				}
-				nextTypeComment = strings.TrimSpace(comment)
+				nextTypeComment = comment
 			case "@enum", "@constructor", "@method":
-				comment, err := cur.ReadAt('\n')
-				if err != nil {
-					return nil, fmt.Errorf("read comment: %w", err)
-				}
-				constructorComment = strings.TrimSpace(comment)
+				constructorComment = comment
 			case "@param":
-				pname, err := cur.ReadAt(' ')
-				if err != nil {
-					return nil, fmt.Errorf("read comment param name: %w", err)
+				pname, pcomment := comment, ""
+				if i := strings.IndexAny(comment, " \t"); i >= 0 {
+					pname, pcomment = comment[:i], strings.TrimSpace(comment[i:])
 				}
-
-				cur.SkipSpaces()
-				pcomment, err := cur.ReadAt('\n')
-				if err != nil {
-					return nil, fmt.Errorf("read comment param: %w", err)
-				}
-
-				paramComments[pname] = strings.TrimSpace(pcomment)
-			default:
-				return nil, fmt.Errorf("unknown comment type: %s", ctype)
+				paramComments[pname] = pcomment
 			}
 
-			cur.Skip(1)
 			continue
 		}
 
